@@ -164,10 +164,14 @@ func (sc *c13Scenario) Run(s *simrt.Sim) {
 		}
 	})
 	proxy := &c13Proxy{a: actor, s: s, reqs: func(m int) *c13Req { return byMsg[m] }}
+	proto := fpgo.AskNewGenerics[int, int](-1)
 	doAsk := func(name string, r *c13Req) {
 		ask := fpgo.AskNewGenerics[int, int](r.msg)
-		if r.msg%3 == 0 {
-			ask = (&fpgo.AskDef[int, int]{}).New(r.msg) // method-style constructor
+		switch r.msg % 3 {
+		case 0:
+			ask = (&fpgo.AskDef[int, int]{}).New(r.msg) // method-style constructor on a zero value
+		case 1:
+			ask = proto.New(r.msg) // derived from a shared, fully constructed prototype
 		}
 		switch r.spec.Via {
 		case "AskOnce":
